@@ -103,7 +103,7 @@ func init() {
 				continue
 			}
 			f := ir.GuardFacts(ret)
-			if ir.HasFact(f, "call("+fsK+"getUnmarshaledEntryForBlock)(", "#1") && ir.HasFact(f, "!call(x/fixationstore/types.Entry.IsDeletedBy)(") {
+			if hasResultFact(f, fsK+"getUnmarshaledEntryForBlock)(", 1, true) && ir.HasFact(f, "!call(x/fixationstore/types.Entry.IsDeletedBy)(") {
 				c.OK("C14b/GetEntry/true-only-for-found-and-not-deleted", c.P.InstrPos(ret), "")
 			} else {
 				c.Fail("C14b/GetEntry/true-only-for-found-and-not-deleted", c.P.InstrPos(ret), "GetEntry hands out a version that was not found or is deleted at the current height")
